@@ -206,8 +206,14 @@ def run(case):
     system, pre = build_system(case, atoms, ff)
     must, may, reasons, near, residues, name_resolved, name_edges = reference(case, atoms, blocks, pre)
     by_tag = {a['tag']: a for a in atoms}
+    processor = MakeBonds(allow_name=case['allow_name'], allow_dist=case['allow_dist'], fudge=case['fudge'])
+    used_before = len(atoms) % 2 == 1
     with capture_logs():
-        MakeBonds(allow_name=case['allow_name'], allow_dist=case['allow_dist'], fudge=case['fudge']).run_system(system)
+        if used_before:
+            # the processor object has handled another system already (the same atoms, listed molecule by molecule in reverse)
+            other, _ = build_system(dict(case, mols=list(reversed(case['mols']))), place(dict(case, mols=list(reversed(case['mols'])))), ff)
+            processor.run_system(other)
+        processor.run_system(system)
     # --- atoms preserved exactly once, molecules partition them
     seen = {}
     got_edges = {}
@@ -302,6 +308,8 @@ def run(case):
     if any(len(v) > 1 for v in ids.values()) and len([v for v in stale if v is not None]) >= 2 and \
             len(set(v for v in stale if v is not None)) < len([v for v in stale if v is not None]):
         classes.add('shared-identity-and-equal-stale-mol_idx')
+    if used_before:
+        classes.add('processor-object-used-before')
     if case['fudge'] < 1:
         classes.add('fudge<1')
     if any(a['element'] == 'Se' for a in atoms):
